@@ -1,10 +1,11 @@
 Require Extraction.
 Require Import ExtrOcamlBasic.
 From Coq Require Import ZArith NArith.
-From VB Require Import Rewards.BigDecDefs Rewards.CalcDefs Rewards.SpecDefs Rewards.BoundsDefs.
+From VB Require Import Rewards.BigDecDefs Rewards.CalcDefs Rewards.SpecDefs Rewards.BoundsDefs Rewards.WindowDefs.
 Extraction "Rewards_model.ml" Nat.pred N.succ Z.succ
   wrap256 bd_add bd_sub bd_mul bd_div bd_of_u64 low64 bd_integer_fraction bd_decimal_fraction
   round_for_block score_multiplier
   block_reward256 miner_reward256 score256 difficulty256 payouts_inner256 calc_payouts256 get_pop_payout256
   spec_block_reward spec_score spec_difficulty spec_paid spec_payees spec_endorsed spec_cap spec_round
-  default_params params_okb chain_okb block_okb.
+  default_params params_okb chain_okb block_okb
+  window pay_window difficulty_win256 calc_payouts_win256 get_pop_payout_win256.
